@@ -149,10 +149,14 @@ pub mod seq {
             if self.i + 1 >= self.cutpoints.len() {
                 return None;
             }
-            if self.i > 0 {
-                let advance = self.cutpoints[self.i] - self.cutpoints[self.i - 1];
-                self.lender.advance_by(advance).ok()?;
-            }
+            // The lender starts at node 0, so the first part must skip the
+            // nodes before the first cutpoint
+            let advance = if self.i > 0 {
+                self.cutpoints[self.i] - self.cutpoints[self.i - 1]
+            } else {
+                self.cutpoints[0]
+            };
+            self.lender.advance_by(advance).ok()?;
             let len = self.cutpoints[self.i + 1] - self.cutpoints[self.i];
             self.i += 1;
             Some(self.lender.clone().take(len))
